@@ -1,5 +1,6 @@
 """C14 - headers behave as an ordered, case-insensitive multimap with safe transcoding."""
 import itertools
+import re
 
 from harness.core import hx, unhx, Violation, excname
 
@@ -25,10 +26,16 @@ NAMES = ["X-Test", "x-test", "X-TEST", "Set-Cookie", "set-cookie", "SET-COOKIE",
 VALUES = ["a", "b c", "é", "Ž€", "\U0001F600", "", "x\"y\\z"]
 
 
+NONSTR = {"!0": 0, "!f": False, "!z": 0.0, "!b": b"", "!l": [], "!t": (), "!B": b"x", "!T": True}
+
+
 def arg(x):
     if x is None:
         return "-"
     if not isinstance(x, str):
+        for k, v in NONSTR.items():
+            if type(v) is type(x) and v == x:
+                return k
         return "!"
     return hx(x)
 
@@ -38,6 +45,8 @@ def unarg(t):
         return None
     if t == "!":
         return 12345
+    if t.startswith("!"):        # other values that are not strings, the falsy ones among them
+        return NONSTR[t]
     return unhx(t).decode("utf-8")
 
 
@@ -50,9 +59,9 @@ def rand_op(rng, names, values):
     n = rng.choice(names)
     v = rng.choice(values)
     if rng.random() < 0.04:
-        n = rng.choice([12345, None])
-    if rng.random() < 0.05:
-        v = rng.choice([12345, None])
+        n = rng.choice([12345, None, 0, b""])
+    if rng.random() < 0.07:
+        v = rng.choice([12345, None, 0, False, 0.0, b"", b"x", True])
     if kind == "len":
         return "len"
     if kind in ("get", "all", "in", "del"):
@@ -62,8 +71,8 @@ def rand_op(rng, names, values):
     params = []
     for _ in range(rng.choice([0, 0, 1, 2])):
         pv = rng.choice(values + [None, None])
-        if rng.random() < 0.03:
-            pv = 12345
+        if rng.random() < 0.08:
+            pv = rng.choice([12345, 0, False, 0.0, b"", b"x", True])
         params.append("%s=%s" % (hx(rng.choice(["filename", "max_age", "x", "char_set"])), arg(pv)))
     if len({p.split("=")[0] for p in params}) != len(params):
         params = params[:1]
@@ -102,7 +111,9 @@ def generate(rng, tier):
 
 def to_model(case):
     t = case.split()
-    return [" ".join(t[:2] + t[3:])]
+    # the model knows one kind of "not a string"
+    line = " ".join(t[:2] + t[3:])
+    return [re.sub(r"![0fzbltBT]", "!", line)]
 
 
 def show_items(h):
